@@ -102,6 +102,7 @@ func remote(p *core.Program) *remoteModel {
 func c13r1(c *core.Ctx) {
 	p := c.P
 	stdlibPanicsGuarded(c)
+	cryptographerFieldsLocked(c)
 	m := remote(p)
 	c.Count("entry_points", len(m.entries))
 	c.Count("functions_reachable", len(m.reach))
@@ -858,5 +859,55 @@ func eofDoesNotCloseSocket(c *core.Ctx) {
 	})
 	if n == 0 {
 		c.OK("eof-does-not-close-socket@"+fname(f), f.Pos(), "DecryptedRead never closes the socket")
+	}
+}
+
+// cryptographerFieldsLocked: the two cryptographer fields of a session are read and written under the session's mutex. They are
+// interface values — two machine words — and three goroutines touch them: the handler of the pair-verify finish request stores the
+// next cryptographer, the read that net/http keeps pending moves it into place (Decrypter), writers of responses and events read it
+// (Encrypter). Without a lock a copy taken between the two word stores installs an interface that is not nil and holds a nil pointer,
+// for good. Encrypt dereferences it inside net/http's finishRequest; conn.serve recovers that panic and closes the connection,
+// which flushes the same buffer through Connection.Write again — the second panic is inside the deferred function, nobody
+// recovers it, the process exits. Nothing but correct pair-verify exchanges of a paired controller is needed (35 000 of them from
+// one sequential client, four to thirty-six seconds with eight). The ordering of the hand-over (C08-R5) is a different matter.
+func cryptographerFieldsLocked(c *core.Ctx) {
+	p := c.P
+	sessT := mod + "/hap.session"
+	isMu := func(v ssa.Value) bool {
+		if _, ok := core.FieldLoad(v, sessT, "mu"); ok {
+			return true
+		}
+		_, ok := core.FieldAddrOf(v, sessT, "mu")
+		return ok
+	}
+	n := 0
+	for _, f := range libFuncs(p) {
+		if isTestFunc(p, f) || cn(f) == "NewSession" {
+			continue // the constructor: nobody else has the session yet
+		}
+		core.Instrs(f, func(i ssa.Instruction) {
+			var fa *ssa.FieldAddr
+			switch x := i.(type) {
+			case *ssa.Store:
+				fa, _ = x.Addr.(*ssa.FieldAddr)
+			case *ssa.UnOp:
+				if x.Op == token.MUL {
+					fa, _ = x.X.(*ssa.FieldAddr)
+				}
+			}
+			if fa == nil || !core.TypeIs(fa.X.Type(), sessT) {
+				return
+			}
+			if name := fieldNameOf(fa); name != "cryptographer" && name != "nextCryptographer" {
+				return
+			}
+			n++
+			in, why := inCriticalSection(f, i, isMu)
+			c.Check(in, "cryptographer-fields-locked@"+fname(f), posOf(i), "the session's cryptographer fields are accessed under the session's mutex",
+				"a cryptographer field of the session is read or written without the session's mutex ("+why+"): the interface value is two words, a reader between the two stores of a concurrent writer installs a non-nil interface around a nil pointer — the next Encrypt panics inside net/http's finishRequest, again inside the deferred close that follows the recovery, and the process exits")
+		})
+	}
+	if n == 0 {
+		c.Undecided("cryptographer-fields-locked", token.NoPos, "no access to the session's cryptographer fields found")
 	}
 }
